@@ -488,3 +488,38 @@ fn dirichlet_boundary(
 
     Ok(im_k)
 }
+
+/// Verification hooks (cargo feature `verif`): the private arithmetic of `boundary_first_flatten`
+/// upstream of the sparse solver.
+#[cfg(feature = "verif")]
+pub mod verif {
+    use super::*;
+
+    pub fn face_angles(mesh: &MeshEdges) -> Result<Vec<[f64; 3]>> {
+        calc_face_angles(mesh)
+    }
+
+    pub fn angle_defects(mesh: &MeshEdges, i_bound: &[u32]) -> Result<Vec<f64>> {
+        let face_angles = calc_face_angles(mesh)?;
+        calc_angle_defects(mesh.vertices().len(), i_bound, &face_angles, mesh.faces())
+    }
+
+    pub fn laplacian_triplets(mesh: &MeshEdges) -> Result<Vec<(u32, u32, f64)>> {
+        let face_angles = calc_face_angles(mesh)?;
+        let n_vert = mesh.vertices().len();
+        let triplets = cotan_laplacian_triplets(&face_angles, n_vert, &mesh.edges, &mesh.face_edges)?;
+        Ok(triplets.iter().map(|t| (t.row, t.col, t.val)).collect())
+    }
+
+    pub fn boundary_lengths(mesh: &MeshEdges, i_bound: &[u32]) -> Vec<f64> {
+        boundary_edge_lengths(mesh.vertices(), i_bound)
+    }
+
+    pub fn boundary_vertex_masses(b_lengths: &[f64]) -> Vec<f64> {
+        calc_boundary_vertex_masses(b_lengths)
+    }
+
+    pub fn cumulative(a: &[f64], scale: f64) -> Vec<f64> {
+        cumulative_sum(a, scale)
+    }
+}
